@@ -28,21 +28,23 @@ pub fn addr_dyn(e: &(dyn Error + 'static)) -> usize { e as *const dyn Error as *
 pub fn addr<T>(t: &T) -> usize { t as *const T as *const u8 as usize }
 pub fn which(a: Option<usize>, fields: &[usize]) -> String { match a { None => "null".to_string(),
         Some(a) => match fields.iter().position(|f| *f == a) { Some(i) => format!("{}", i + 1), None => "\"other\"".to_string() } } }
-pub fn report(k: &str, src: Option<usize>, fields: &[usize]) {
-    println!("OBS {{\"k\": \"{}\", \"src\": {}}}", k, which(src, fields));
+pub fn report(k: &str, src: Option<usize>, fields: &[usize], comp: &str) {
+    println!("OBS {{\"k\": \"{}\", \"src\": {}, \"comp\": \"{}\"}}", k, which(src, fields), comp);
 }
-pub fn report2(k: &str, src: Option<usize>, bt: Option<usize>, fields: &[usize]) {
-    println!("OBS {{\"k\": \"{}\", \"src\": {}, \"bt\": {}}}", k, which(src, fields), which(bt, fields));
+pub fn report2(k: &str, src: Option<usize>, bt: Option<usize>, fields: &[usize], comp: &str) {
+    println!("OBS {{\"k\": \"{}\", \"src\": {}, \"bt\": {}, \"comp\": \"{}\"}}", k, which(src, fields), which(bt, fields), comp);
 }
 '''
 
 ATTR = {"none": "", "source": "#[error(source)] ", "not_source": "#[error(not(source))] ",
         "backtrace": "#[error(backtrace)] ", "not_backtrace": "#[error(not(backtrace))] ",
-        "ignore": "#[error(ignore)] ", "source_backtrace": "#[error(backtrace, source)] "}
+        "ignore": "#[error(ignore)] ", "source_backtrace": "#[error(backtrace, source)] ",
+        "nb_source": "#[error(not(backtrace), source)] ", "source_nb": "#[error(source, not(backtrace))] ",
+        "ns_backtrace": "#[error(not(source), backtrace)] ", "backtrace_ns": "#[error(backtrace, not(source))] "}
 
 
 def key_of(c):
-    return ("V" if c["isVariant"] else "S") + ("n" if c["named"] else "t") + "[" + \
+    return (("V" + {"unit": "", "ignored": "+ign", "sourced": "+src"}[c["comp"]]) if c["isVariant"] else "S") + ("n" if c["named"] else "t") + "[" + \
         ",".join(f'{f["attr"]}:{f["name"]}:{f["ty"]}' for f in c["l"]) + "]"
 
 
@@ -81,7 +83,9 @@ def render(c, key, src_field=None, nightly=False):
         pat = " {}" if named else "()"
     addrs = ", ".join((f"addr_dyn(&**b{i})" if f["ty"] == "box" else f"addr(b{i})") for i, f in enumerate(l))
     if c["isVariant"]:
-        decl = f"#[derive(derive_more::Debug, derive_more::Error)]\npub enum En{gd} {{ V{body_fields}, Other }}"
+        comp_decl = {"unit": "Other", "ignored": "#[error(ignore)] Other(E)", "sourced": "Other { source: E }"}[c["comp"]]
+        comp_ctor = {"unit": "En::Other", "ignored": "En::Other(E(77))", "sourced": "En::Other { source: E(77) }"}[c["comp"]]
+        decl = f"#[derive(derive_more::Debug, derive_more::Error)]\npub enum En{gd} {{ V{body_fields}, {comp_decl} }}"
         ctor = f"En::V{init}"
         tyname = "En"
         mpat = f"En::V{pat}"
@@ -100,11 +104,25 @@ def render(c, key, src_field=None, nightly=False):
         elif f["ty"] == "assoc":
             ann_list.append("HoldsErr" if src_field == i + 1 else "HoldsNot")
     ann = (": " + tyname + "<" + ", ".join(ann_list) + ">") if ann_list else ""
+    # the companion variant's value (explicit type arguments: its constructor mentions no parameter)
+    ann2_list = []
+    for i, f in enumerate(l):
+        if f["ty"] == "generic":
+            ann2_list.append("E" if src_field == i + 1 else "NotErr")
+        elif f["ty"] == "assoc":
+            ann2_list.append("HoldsErr" if src_field == i + 1 else "HoldsNot")
+    ann2 = (": " + tyname + "<" + ", ".join(ann2_list) + ">") if ann2_list else ""
+    if c["isVariant"]:
+        comp_obs = (f"let cv{ann2} = {comp_ctor}; let comp = match (&cv, Error::source(&cv)) {{ (_, None) => \"none\", "
+                    + ("(En::Other { source }, Some(s)) => if addr_dyn(s) == addr(source) { \"field\" } else { \"other\" }, "
+                       if c["comp"] == "sourced" else "") + "_ => \"other\" };")
+    else:
+        comp_obs = "let comp = \"na\";"
     if nightly:
         report_call = (f"let bt = core::error::request_ref::<Backtrace>(&v).map(|b| addr(b)); "
-                       f"report2({json.dumps(key)}, src, bt, &fields);")
+                       f"report2({json.dumps(key)}, src, bt, &fields, comp);")
     else:
-        report_call = f"report({json.dumps(key)}, src, &fields);"
+        report_call = f"report({json.dumps(key)}, src, &fields, comp);"
     return f"""use super::*;
 {decl}
 impl{gd} fmt::Display for {tyname}{g} {{ fn fmt(&self, f: &mut fmt::Formatter<'_>) -> fmt::Result {{ f.write_str("x") }} }}
@@ -112,6 +130,7 @@ pub fn run() {{
     let v{ann} = {ctor};
     let fields: Vec<usize> = match &v {{ {mpat} => vec![{addrs}]{extra} }};
     let src = Error::source(&v).map(addr_dyn);
+    {comp_obs}
     {report_call}
 }}"""
 
@@ -163,22 +182,29 @@ def run(chk, tier, seed, replay):
     if tier == "quick" and not replay:
         # all <=1-field layouts + a seeded third of the 2-field ones on stable; nightly: a seeded sixth
         sup = [c for c in sup if len(c["l"]) < 2 or vlib.seeded_pick(c["_key"], seed, 3) == 0]
+        # the companion variants other than the plain unit one: a seeded half
+        sup = [c for c in sup if c["comp"] == "unit" or vlib.seeded_pick(c["_key"], seed + 2, 2) == 0]
     stable = [c for c in sup if c["bt"][0] != "field"]
     nightly = [c for c in sup if c["bt"][0] == "field"]
     if tier == "quick" and not replay:
         nightly = [c for c in nightly if vlib.seeded_pick(c["_key"], seed + 1, 2) == 0]
     nontrivial = 0
-    for name, group, tc, attrs in (("c09_stable", stable, None, ""),
-                                   ("c09_nightly", nightly, "nightly", "#![feature(error_generic_member_access)]\n")):
-        if not group:
-            continue
+    import concurrent.futures as cf
+
+    def build_group(arg):
+        name, group, tc, attrs, nsh = arg
         mods = []
         for c in group:
             src = c["doc"][1] if c["doc"][0] == "field" else None
             mods.append((c["_key"], render(c, c["_key"], src, nightly=(tc == "nightly"))))
         log(f"[C09] building {name}: {len(mods)} layouts")
-        obs2, failed, br = vlib.run_case_crate(name, mods, prelude=PRELUDE, toolchain=tc, crate_attrs=attrs,
-                                               features=("error", "debug", "std"))
+        return vlib.run_case_crate_sharded(name, mods, nsh, prelude=PRELUDE, toolchain=tc, crate_attrs=attrs,
+                                           features=("error", "debug", "std"))
+    groups = [g for g in (("c09_stable", stable, None, "", 4),
+                          ("c09_nightly", nightly, "nightly", "#![feature(error_generic_member_access)]\n", 3)) if g[1]]
+    with cf.ThreadPoolExecutor(max_workers=2) as ex:
+        built = list(ex.map(build_group, groups))
+    for (name, group, tc, attrs, _), (obs2, failed, br) in zip(groups, built):
         for c in group:
             k = c["_key"]
             chk.cov["evaluations"] += 1
@@ -202,6 +228,12 @@ def run(chk, tier, seed, replay):
                               case={"layout": c["l"], "named": c["named"], "variant": c["isVariant"],
                                     "module": render(c, k, exp)},
                               expected={"source": exp}, observed={"source": got}, tags={"kind": "wrong_source"})
+            want_comp = "na" if not c["isVariant"] else ("field" if c["compDoc"][0] == "field" else "none")
+            if o.get("comp") != want_comp:
+                chk.deviation(k, f"source() of the companion variant ({c['comp']}) is {o.get('comp')}, the rules give {want_comp}",
+                              case={"layout": c["l"], "companion": c["comp"], "module": render(c, k, exp)},
+                              expected={"companion_source": want_comp}, observed={"companion_source": o.get("comp")},
+                              tags={"kind": "wrong_companion_source"})
             # extension beyond C09 (spec growth): which field provide() offers for a Backtrace request
             if "bt" in o:
                 pv = c.get("provide", ["none"])
